@@ -37,7 +37,8 @@ Theorems
   engine is C03's model: the pre-edit text over the range of a choice is the chosen text, in the alternative the
   editor shows.  `choice_shown_along`: the two combined.
 * `break_survives_op`, `break_persists_along` — the same for a break point (`BreakCarried`: still a break,
-  before the same symbol); `break_not_spanned_editor`: no interval of any alternative spans a break.
+  before the same symbol); `break_not_spanned_editor`: no interval of any alternative spans a break;
+  `break_respected_along`: the two combined.
 * non-vacuity: concrete histories over C03's engine model and example dictionary (`C02.linkEnv`).
 -/
 namespace Chewing.C04
@@ -325,6 +326,39 @@ theorem choice_shown_along (hd : Link.DictOK env G) (he : Link.EngineIsC03 env G
     refine ⟨t, t1, t2, fun txt hdsp => ?_⟩
     rw [← t2.text]
     exact choice_displayed he hi'.sh hlen hsp t1 hdsp
+  · exact absurd hr hne
+
+/-- **break points, as worded, along histories**: a break set in a state satisfying C01's invariant, after any
+    history none of whose steps touches that gap (or auto-commits the symbol behind it): it is still a break of the
+    final state, before the same symbol, and NO interval of ANY alternative the engine returns for the final buffer
+    spans it -/
+theorem break_respected_along (hd : Link.DictOK env G) (he : Link.EngineIsC03 env G pick view) (ops : List (Op L))
+    (e e' : Editor D L) (hi : EditorInv env G w e) (ha : AllowedW w env e ops) (h : e.run env ops = .ok e')
+    (hlen : e'.shared.com.inner.symbols.length ≤ 128) (hsp : Conv.SpellNonempty e'.shared.com.inner)
+    {j : Nat} (hg : e.shared.com.inner.gaps[j]? = some Gap.brk)
+    (hne : ¬ ∃ (pre : List (Op L)) (op : Op L) (post : List (Op L)) (e1 e2 : Editor D L) (j1 : Nat),
+        ops = pre ++ op :: post ∧ e.run env pre = .ok e1 ∧ e1.apply env op = .ok e2 ∧
+        BreakCarried e.shared.com.inner e1.shared.com.inner j j1 ∧ TouchedBy env e1 op e2 j1) :
+    ∃ j', BreakCarried e.shared.com.inner e'.shared.com.inner j j' ∧
+      ∀ alts, env.convert e'.shared.engine e'.shared.dict e'.shared.com.inner = .ok alts →
+        ∀ alt ∈ alts, ∀ iv ∈ alt, ¬ (iv.start < j' ∧ j' < iv.stop) := by
+  have hE := Link.envOK_of_C03 hd he
+  rcases break_persists_along hE ops e e' hi ha h j hg with ⟨j', b⟩ | hr
+  · have hi' : EditorInv env G w e' := by
+      clear hne hg b
+      induction ops generalizing e with
+      | nil => simp only [Editor.run] at h; cases h; exact hi
+      | cons op ops ih =>
+        obtain ⟨hv, hk, hrest⟩ := ha
+        simp only [Editor.run] at h
+        split at h
+        · next e1 h1 =>
+          obtain ⟨e2, h2, hi2⟩ := apply_ok hE hi op hv hk
+          rw [h1] at h2
+          exact ih e1 (by rw [Outcome.ok.inj h2]; exact hi2) (hrest e1 h1) h
+        · cases h
+        · cases h
+    exact ⟨j', b, fun alts hc => break_not_spanned_editor he hi'.sh hlen hsp b.1 hc⟩
   · exact absurd hr hne
 
 end Linked
